@@ -175,8 +175,10 @@ func C08(c *fw.Ctx) {
 	})
 	c.Add("reduced_viable_prefixes", v)
 	c.Add("reduced_dead_extensions", d)
-	v, d, o = walkTokens(c, exprAlphabet(), exprLen, func(tc tokCase) {
-		if len(tc.Syms) > redLen {
+	// (dead leaves of the expression alphabet are extended by an identifier / a number and a ';': a dead
+	// text must stay dead whatever follows, e.g. `- a . a = a ;`)
+	v, d, o = walkTokensExt(c, exprAlphabet(), exprLen, []tokSym{{"IDENT", "a"}, {"NUMBER", "1"}}, func(tc tokCase) {
+		if len(tc.Syms) > redLen || (!tc.Accepted && tc.Dead < len(tc.Syms)-1) {
 			visitC08(c, tc, false)
 		}
 	})
@@ -305,6 +307,17 @@ func C08(c *fw.Ctx) {
 					}
 				}
 			}
+		}
+	}
+	// every code point up to U+2FFF (and the supplementary Bengali-adjacent and symbol ranges) as a text of
+	// its own, after a letter, and as a declared name: accepted exactly when the documented lexer makes an
+	// identifier (or nothing) of it
+	for r := rune(0x80); r <= 0x2FFF; r++ {
+		if !c.Mine() {
+			continue
+		}
+		for _, txt := range []string{string(r) + ";", "x" + string(r) + ";", model.KwVar + " " + string(r) + " = 1;"} {
+			charLevel(c, txt)
 		}
 	}
 	// deep nesting: verdict known by construction
